@@ -3,6 +3,7 @@
     [Print Assumptions].  [build] is IndexedInstruments::new (None = panic); names are abstract
     ordered keys (see Model/Index.v). *)
 From BV Require Import Base.Common Model.Index Proofs.Index.
+From BV Require Import Corr.C11 Proofs.CorrC11.
 From Coq Require Import Permutation.
 
 (** Building never panics: every exchange / asset lookup made while re-keying succeeds, for ANY
@@ -98,6 +99,16 @@ Proof.
   split; [exact (inames_wf_b_sound l)|exact (inames_wf_ex l)].
 Qed.
 Print Assumptions C11_hypothesis_checks.
+
+(** Link between the model theorems and the executable oracle of the correspondence check
+    (Corr/C11.v): on every well-formed case (faithful definition keys both ways; for the
+    insertion-order cases: >= 1 order tried, the listed orders are permutations, the listed
+    results pairwise different) on which the model reproduces the observation, the oracle
+    accepts the observation.  Hence the oracle is no stricter than the model: an oracle failure
+    on a well-formed case always comes with a model / implementation disagreement. *)
+Theorem C11_oracle_sound : forall c, wf_case c = true -> corr_b c = true -> prop_b c = true.
+Proof. exact oracle_sound. Qed.
+Print Assumptions C11_oracle_sound.
 
 (** Non-vacuity: two exchanges sharing asset names (exchange 1 calls btc "XBT"), a duplicate, a
     perpetual with a settlement asset and an asset-denominated quantity unit, given out of
